@@ -40,7 +40,7 @@ SCHEDS_ALL = ["ap", "gd", "ip", "lfq", "lhq", "ll", "llp", "ltq", "pbq", "rnd", 
 def configs(ctx):
     out = []
     if ctx.quick:
-        # 4 schedulers, 1..4 threads; startup parameters 1 / default alternate; one run with sequential taskpools
+        # 7 schedulers, 1..4 threads; startup parameters 1 / default alternate; one run with sequential taskpools
         # (the ll module documents that it cannot wait actively with a single thread: 2 threads there)
         out = [{"sched": "lfq", "cores": 4, "conc": 64, "iter": None, "chunk": 1},
                {"sched": "lfq", "cores": 1, "conc": 1, "iter": 1, "chunk": None},
@@ -50,8 +50,7 @@ def configs(ctx):
                {"sched": "ll", "cores": 2, "conc": 64, "iter": None, "chunk": None},
                {"sched": "gd", "cores": 2, "conc": 64, "iter": 2, "chunk": 3},
                {"sched": "ip", "cores": 4, "conc": 64, "iter": None, "chunk": None, "noise": 5},
-               {"sched": "rnd", "cores": 3, "conc": 64, "iter": 1, "chunk": 1, "noise": 9},
-               {"sched": "pbq", "cores": 4, "conc": 8, "iter": None, "chunk": 2}]
+               {"sched": "rnd", "cores": 3, "conc": 64, "iter": 1, "chunk": 1, "noise": 9}]
     else:
         k = 0
         for s in SCHEDS_ALL:
@@ -69,7 +68,7 @@ def programs(ctx):
     for e in ents:
         it, _ = jdfgen.validate(e["prog"])
         e["ntasks"] = len(it.order)
-    ents += jdfgen.random_programs(1000 + ctx.seed, 20 if ctx.quick else 300)
+    ents += jdfgen.random_programs(1000 + ctx.seed, 12 if ctx.quick else 300)
     return ents
 
 
